@@ -95,6 +95,11 @@ chk("C17", "model_checking", "E4-baton-scheduler + E1 path comparison",
     "2-3 real threads run muxer programs under a scheduler that owns every interleaving decision at the stated scheduling points; every schedule up to the preemption bound is executed and each program must reproduce its solo results, bytes and thread-local log; schedules are replayed to confirm determinism. Two instances on one thread are interleaved in every order; equivalent API paths, sink types, cross-thread moves and convenience-vs-explicit writes are compared byte-for-byte; wall-clock independence is checked under an LD_PRELOAD clock shift. The for-all-W auto-trait clause is a generic function compiled into the harness.",
     "Trusted base: the scheduler (harness/oracle/src/sched.rs, with its own lost-update unit test); interleavings finer than the scheduling points are not explored (muxide has no shared mutable state outside the thread-local log - scan in the evidence).", "DESIGN.md §4 C17")
 
+chk("C20", "exploration", "E6-cli-product-enumerator",
+    "exhaustive enumeration of CLI option products and input-file shapes against an in-process library twin and the independent reader",
+    "The built muxide binary is spawned for every element of the valid option product (quick: pairwise-complete covering set; thorough: full product) and its output file is compared byte-for-byte with an in-process library run; every single invalid deviation must exit unsuccessfully without reporting completion; validate's verdict is compared with the reference predicate over all pairs of input kinds; info must terminate on all small malformed box files and list exactly the reader's top-level boxes for well-formed output.",
+    "Trusted base: the binary is rebuilt from /repo by ./check C20; process spawning and file I/O of the sandbox.", "DESIGN.md §4 C20")
+
 NOT_YET = {
 }
 
